@@ -71,7 +71,7 @@ func projDepth(rv reflect.Value, d int) V {
 		}
 		return V{T: "bool", L: []V{}}
 	case reflect.Slice, reflect.Array:
-		if rv.Kind() == reflect.Slice && rv.Type() != reflect.TypeOf([]interface{}{}) {
+		if rv.Kind() == reflect.Slice && rv.Type() != reflect.TypeOf([]interface{}{}) && rv.Type() != reflect.TypeOf([]int64{}) {
 			return V{T: "typedslice", S: rv.Type().String(), L: []V{}}
 		}
 		l := make([]V, rv.Len())
@@ -80,7 +80,8 @@ func projDepth(rv reflect.Value, d int) V {
 		}
 		return V{T: "list", L: l}
 	case reflect.Map:
-		if rv.Type() != reflect.TypeOf(map[interface{}]interface{}{}) {
+		// the typed literals of the reference semantics ([]int64, map[string]int64, map[string]interface{}) are lists / maps of their elements
+		if rv.Type() != reflect.TypeOf(map[interface{}]interface{}{}) && rv.Type() != reflect.TypeOf(map[string]int64{}) && rv.Type() != reflect.TypeOf(map[string]interface{}{}) {
 			return V{T: "typedmap", S: rv.Type().String(), L: []V{}}
 		}
 		l := []V{}
